@@ -130,8 +130,23 @@ fn run_field<F: FL>(ctx: &Ctx, rec: &mut Rec) {
                 continue;
             }
             let a = if rep % 2 == 0 { zoo[rand_range(&mut rng, zoo.len())].0.clone() } else { rand_below(&mut rng, &f.p) };
-            let bb = match rep % 7 {
+            let bb = match rep % 10 {
                 0 => a.clone(),
+                // same high limbs, everything below limb i re-randomised (first differing limb may differ
+                // by more than 2^63 / 2^31)
+                7 | 8 => {
+                    let i = 1 + rand_range(&mut rng, (f.bits + 31) / 32 - 1);
+                    let low_mask = (b(1) << (32 * i)) - b(1);
+                    let high = &a - (&a & &low_mask);
+                    (high + rand_below(&mut rng, &(b(1) << (32 * i)))) % &f.p
+                }
+                // internal (Montgomery) representations differ in exactly one limb
+                9 => {
+                    let n64 = (f.bits + 63) / 64;
+                    let rinv = f.inv(&((b(1) << (64 * n64)) % &f.p)).unwrap();
+                    let i = rand_range(&mut rng, (f.bits + 31) / 32);
+                    f.add(&a, &f.mul(&(b(1) << (32 * i)), &rinv))
+                }
                 1 => f.add(&a, &b(1)),
                 2 => {
                     // differ only in one 32-bit limb
